@@ -418,6 +418,11 @@ fn encode_case(g: &mut Gen, ctx: &mut Ctx) -> CaseResult {
                         4 => !k.key_ops.is_empty(),
                         _ => !k.base_iv.is_empty(),
                     };
+                    if l == 1 && g.bool() {
+                        // a key whose kty was never set: label 1 is emitted all the same (`1: 0`)
+                        k.kty = coset::KeyType::default();
+                        ctx.class("encode:kty-left-at-its-default");
+                    }
                     let at = g.below(k.params.len() + 1);
                     k.params.insert(at, (Label::Int(l), leaf_value(g)));
                     must_fail = populated;
